@@ -38,6 +38,10 @@ CHECKS = {
         'property-based testing: generated grammars x inputs x generated semantics objects; reference oracle RefPEG-with-actions; call-log multiset comparison; exception identity check; model and generated parser',
         'Generated grammars (with rule parameters, @nomemo) x inputs x semantics {identity, tagging, _default only, mixed, FailedSemantics on a value from the reference trace, raising one of 10 exception classes on such a value}: outcome/AST equal to the reference running the same actions; action calls are a sub-multiset of the memo-free reference\'s with the same support (exact when every rule is @nomemo); a foreign exception reaches the caller as the same object. Exploration.',
         REF_NOTE + '; shapes affected by known findings F-C01-a (open-list rule values) and F-C02-a (generated parser name binding) are not judged', 'DESIGN.md §3 C06'),
+    'C09': (
+        'property-based testing: metamorphic relation over whitespace/comment layouts + reference oracle RefPEG under the effective configuration + layering differential (compile-time < directive < parse-time)',
+        'Generated grammars x configurations (whitespace default/regex/none, nameguard, namechars, ignorecase, comments and eol_comments as directives or settings) x sentences in base/varied/adversarial layouts: outcome(varied)==outcome(base); every layout agrees with the reference; each setting given at any subset of the three layers behaves like the single effective value. Exploration.',
+        REF_NOTE + '; whitespace/comment patterns are assumed non-nullable; nameguard=False together with namechars is not generated (config.py forces nameguard on)', 'DESIGN.md §3 C09'),
     'C12': (
         'exhaustive enumeration of short strings x offsets against an independent line splitter; property-based parseinfo check against RefPEG trace',
         '(a) every string over {a, space, LF, CR} up to length 6 (quick) / 9 (thorough) x every offset x both input classes, exhaustively, plus '
